@@ -1,5 +1,5 @@
 """Property id -> check class; engines; properties not (yet) claimed."""
-from . import e1, e2, e3, e5, e6, e7, e8, e9
+from . import e1, e2, e3, e4, e5, e6, e7, e8, e9
 
 PROPS = {}
 PROPS.update(e1.PROPS)
@@ -10,8 +10,11 @@ PROPS.update(e5.PROPS)
 PROPS.update(e6.PROPS)
 PROPS.update(e8.PROPS)
 PROPS.update(e9.PROPS)
+PROPS.update(e4.PROPS)
 
 ENGINES = [
+    {"name": "E4-rebuild", "path": "vh/e4.py", "serves_properties": ["C13", "C14", "C19"],
+     "kind_free_text": "TLC model checking of MapPieces / FindMatches vs RebuildRef; rebuild scenarios with imposed candidate order under the filesystem tracer + guard; TLC trace validation (TraceRebuild.tla)"},
     {"name": "E9-option-routes", "path": "vh/e9.py", "serves_properties": ["C20"],
      "kind_free_text": "TLC model checking of Cli.tla (argparse greedy flags, recovery, config mapping) + TLC trace validation (TraceCli.tla) of route groups"},
     {"name": "E8-magnet", "path": "vh/e8.py", "serves_properties": ["C11"],
